@@ -1091,6 +1091,7 @@ class Consumer(object):
                 # consumer_group must be set for OFFSET_COMMITTED
                 failure = Failure(InvalidConsumerGroupError("Bad Group_id:{0!r}".format(self.consumer_group)))
                 self._start_d.errback(failure)
+                return
             request = OffsetFetchRequest(self.topic, self.partition)
             self._request_d = self.client.send_offset_fetch_request(self.consumer_group, [request])
             self._request_d.addCallbacks(self._handle_offset_response, self._handle_offset_error)
